@@ -63,8 +63,10 @@ chk("C11", "exploration",
     "property-based testing: Hypothesis-generated histories, ownership model + stat/bytes invariants", "DESIGN.md §4 C11", "H")
 chk("C14", "exploration",
     "Generated histories creating/deleting watched paths across runs over graphs dense in ifcreate and always "
-    "declarations; execution multiset and nested call statuses vs model.", H_NOTE,
-    "property-based testing: Hypothesis-generated histories vs reference model", "DESIGN.md §4 C14", "H")
+    "declarations (watched paths appear as files or directories); execution multiset and nested call statuses vs "
+    "model. Parallel tier: graphs dense in always-targets under harness-owned schedules at -j1..8, serial/parallel "
+    "differential (at most one start per always-target, follow-up run rebuilds exactly the always-targets).", H_NOTE,
+    "property-based testing: Hypothesis-generated histories vs reference model + schedule fuzzing with serial/parallel differential", "DESIGN.md §4 C14, §10.5", "H+S")
 chk("C17", "exploration",
     "Queries inserted at random points of generated histories; listing compared with model lower/upper bounds and "
     "roles; metamorphic twin run without the queries must produce identical build traces and bytes.", H_NOTE,
@@ -112,8 +114,11 @@ chk("C06", "exploration",
     "2-4 overlapping top-level invocations over gated scripts, start times and completion order decided by the "
     "harness, failing scripts and group signals; no script start for a target may arrive while another live "
     "execution of it is open. 45% of the scenarios are rebuilds after a complete serial build and a source edit "
-    "(out-of-band path through redo-unlocked).", S_NOTE,
-    "schedule fuzzing: Hypothesis-generated scenarios + harness-owned schedules, trace interval invariant", "DESIGN.md §4 C06", "S")
+    "(out-of-band path through redo-unlocked). Second tier (stop points): invocation P1 is frozen immediately before "
+    "each of its state-changing libc calls in turn while a second redo-ifchange runs; a target already finished must "
+    "not run again (decides 'recorded before any other process may decide').", S_NOTE,
+    "schedule fuzzing: Hypothesis-generated scenarios + harness-owned schedules, trace interval invariant; fault "
+    "enumeration: freeze at every state-changing call while a second invocation runs", "DESIGN.md §4 C06, §10.5", "S+K")
 chk("C07", "exploration",
     "One parallel invocation under a generated schedule vs the model's serial evaluation and a real serial build in a "
     "sibling directory: at most one start per target, same exit status, executed set, bytes, Files flags and Deps "
